@@ -504,3 +504,63 @@ Proof.
   cbv zeta. split; [|reflexivity]. split; [repeat constructor; intros []|].
   intros k v [H|[]]. inversion H; subst. reflexivity.
 Qed.
+
+(* ---- the code as written: `if var in line.split(): line = line.replace(var, value)`.
+   [lmp_write_for_run] above is the whole-word substitution the property asks for ("exactly
+   the requested entries"); [lmp_impl_write_for_run] is what the code does (str.replace on the
+   running text of every line one of whose words is the variable, in dictionary order).  Key
+   sets with prefix / suffix / substring relations, template words, comments and file names
+   that contain variable names, values that contain variable names: *)
+
+(* a line none of whose WORDS is a requested variable is written back unchanged, whatever
+   its words contain as substrings *)
+Theorem C19_lammps_impl_no_word_untouched : forall s l,
+  (forall k, In k (map fst s) -> ~ In k (line_tokens l)) -> lmp_impl_line s l = l.
+Proof. exact lmp_impl_no_word_untouched. Qed.
+Print Assumptions C19_lammps_impl_no_word_untouched.
+
+(* on a clean line (a variable that is a word of the line occurs, when its turn comes, in no
+   other word still standing and in no value written before it on this line) the code IS the
+   whole-word substitution, so C19_lammps_subst_exact / _output_free apply to it *)
+Theorem C19_lammps_impl_whole_word : forall s l,
+  lmp_line_clean s l = true -> lmp_impl_line s l = lmp_subst_line s l.
+Proof. exact lmp_impl_whole_word. Qed.
+Print Assumptions C19_lammps_impl_whole_word.
+
+Theorem C19_lammps_impl_write_whole_word : forall s ls, forallb (lmp_line_clean s) ls = true ->
+  lmp_impl_write_for_run s ls = lmp_write_for_run s ls.
+Proof. exact lmp_impl_write_whole_word. Qed.
+Print Assumptions C19_lammps_impl_write_whole_word.
+
+(* idempotent: the second application changes nothing and reports every variable missing *)
+Theorem C19_lammps_impl_second_application : forall s ls,
+  lmp_settings_ok s -> forallb (lmp_line_clean s) ls = true ->
+  lmp_impl_write_for_run s (fst (lmp_impl_write_for_run s ls)) = (fst (lmp_impl_write_for_run s ls), map fst s).
+Proof. exact lmp_impl_second_application. Qed.
+Print Assumptions C19_lammps_impl_second_application.
+
+(* the guard is needed ({n: 3, ns: 5} on the line "n ns" gives "3 3s"): recorded finding *)
+Theorem C19_lammps_same_line_refuted : exists s l,
+  lmp_settings_ok s /\ lmp_line_clean s l = false /\ lmp_impl_line s l <> lmp_subst_line s l.
+Proof. exact lmp_impl_same_line_refuted. Qed.
+Print Assumptions C19_lammps_same_line_refuted.
+
+(* matching variables as substrings of the line (`if var in line`) is refuted on a clean line
+   that the code as written leaves alone *)
+Theorem C19_lammps_substring_match_refuted : exists s l,
+  lmp_settings_ok s /\ lmp_line_clean s l = true /\ lmp_impl_line s l = l /\ lmp_substr_line s l <> lmp_subst_line s l.
+Proof. exact lmp_substring_match_refuted. Qed.
+Print Assumptions C19_lammps_substring_match_refuted.
+
+(* prefix-related keys {n: 3, ns: 5} (in this order), a word and a comment containing them:
+   the line "ns xn #n" is clean and only the word ns changes *)
+Example C19_ex_lammps_prefix_keys :
+  let s := [([110], [51]); ([110; 115], [53])] in
+  let l := [(true, [110; 115]); (false, [32]); (true, [120; 110]); (false, [32]); (true, [35; 110])] in
+  lmp_settings_ok s /\ lmp_line_clean s l = true /\
+  lmp_impl_line s l = [(true, [53]); (false, [32]); (true, [120; 110]); (false, [32]); (true, [35; 110])].
+Proof.
+  cbv zeta. split; [|split; reflexivity]. split.
+  - repeat constructor; cbn; intuition discriminate.
+  - intros k v [H|[H|[]]]; inversion H; subst; reflexivity.
+Qed.
